@@ -177,6 +177,7 @@ def run(ctx):
         ctx.ok("R10.mech", "xmlchemy", sample={"semantics": M.semantics, "file": xm.relpath})
     ctx.count("registrations", len(M.registry))
     _shared_descriptors(ctx, prog, M)
+    _creator_overrides(ctx, prog, M)
 
     obs, unconstrained, not_in_schema = obligations(prog, S, M)
     ndecl = sum(len([d for d in M.own_decls(c)[0] if d.kind != "OneAndOnlyOne"]) for c in M.oxml_classes())
@@ -351,3 +352,76 @@ def _shared_descriptors(ctx, prog, M):
         else:
             ctx.ok("R10.shared", key, sample={"shared_by": ["%s.%s" % (u[0].name, u[1]) for u in us], "successors": "identical"})
     ctx.ok("R10.shared", "choice groups", sample={"groups": ngroups, "module_level_choice_tables": len(users)})
+
+
+def _creator_overrides(ctx, prog, M):
+    """The generated `_add_<x>` / `get_or_add_<x>` insert whatever `_new_<x>()` returns at the position of the declared child <x>.  A
+    hand-written `_new_<x>` therefore has to return an element with the declared tag: an element of another tag (say `p:txBody` where
+    `a:txBody` is declared) is inserted all the same, is never found again by the getter, and each access adds one more."""
+    import ast
+
+    from sa.pysrc import dotted
+    from sa.strabs import S as AS
+    from sa.strabs import StrEval
+    from sa.types import FCtx, Types
+    from sa.xmlskel import skeleton
+
+    ctx.rule("R10.creator", "a hand-written _new_<child>() returns an element that has the tag of the declared child")
+    T = Types(prog, M)
+    n_over, n_dec = 0, 0
+    for c in M.oxml_classes():
+        decls = {}
+        for k in reversed(prog.mro(c)):
+            if M.is_oxml_class(k):
+                for d in M.own_decls(k)[0]:
+                    for t in d.tags:
+                        decls[choice_prop(t) if d.kind == "ZeroOrOneChoice" else d.prop] = t
+        for name, f in c.methods.items():
+            if not name.startswith("_new_") or name[5:] not in decls:
+                continue
+            n_over += 1
+            want = prog.qn(decls[name[5:]])
+            key = "%s.%s" % (c.name, name)
+            tags = set()
+            undec = False
+            for r in [x for x in ast.walk(f.node) if isinstance(x, ast.Return) and x.value is not None]:
+                v = r.value
+                while isinstance(v, ast.Call) and dotted(v.func) == "cast" and len(v.args) == 2:
+                    v = v.args[1]
+                if isinstance(v, ast.Name):
+                    from sa import paths as P_
+
+                    v = P_.value_aliases(f.node).get(v.id, v)
+                    while isinstance(v, ast.Call) and dotted(v.func) == "cast" and len(v.args) == 2:
+                        v = v.args[1]
+                if isinstance(v, ast.Call) and dotted(v.func) == "OxmlElement" and v.args:
+                    t = prog.const(v.args[0], f.module)
+                    if isinstance(t, str):
+                        tags.add(prog.qn(t))
+                        continue
+                ev = StrEval(prog, T)
+                try:
+                    env = {f.params[0]: ("self", c)} if f.params else {}
+                    val = ev.eval(v, FCtx(f, c), env)
+                except Exception:  # noqa: BLE001
+                    val = None
+                if isinstance(val, tuple) and val and val[0] == "parsed" and isinstance(val[1], AS) and not ev.unknown:
+                    try:
+                        sk = skeleton(val[1], prog.nsmap)
+                    except Exception:  # noqa: BLE001
+                        sk = None
+                    if sk is not None and len(sk.roots) == 1 and sk.roots[0].kind == "elem":
+                        tags.add(sk.roots[0].tag)
+                        continue
+                undec = True
+            if tags and tags != {want}:
+                ctx.violation("R10.creator", key, "%s returns an element <%s>, but the child it creates is declared as <%s>: the inserted element "
+                              "is not the declared child (the getter does not find it, get_or_add adds another one each time)" % (
+                                  key, ", ".join(sorted(next((p_ + ":" for p_, u_ in prog.nsmap.items() if "{" + u_ + "}" == t[:t.find("}") + 1]), "") + t.split("}")[-1] for t in tags - {want})), decls[name[5:]]), file=f.file, line=f.line)
+            elif tags and not undec:
+                n_dec += 1
+                ctx.ok("R10.creator", key, sample={"creates": decls[name[5:]]})
+            else:
+                ctx.ok("R10.creator", key, nontrivial=False)   # the created element's tag is not evaluated here (typed by C03's template rules)
+    ctx.count("creator_overrides", n_over)
+    ctx.count("creator_overrides_decided", n_dec)
